@@ -7,7 +7,10 @@ Nothing here looks at `src/rtp.rs` or at the model of its parser (`C15Rtp.lean` 
 the input sequentially with the code's own checks): these readers index the whole datagram.  The theorems
 `rfc_layout_*` in `Theorems/C15.lean` show that what the stack SERIALISES is read by these readers as the
 packet that was sent — i.e. the encoder puts every field where the RFC says it is, with the RFC's width,
-byte order and reserved values — and `rfc_parse_*` that the stack's PARSER returns what these readers return.
+byte order and reserved values — and `rfc_parse_*` the PARSE direction: every datagram one of these readers accepts
+(a single packet, no RTCP padding) is parsed by the stack to the packet the reader returns, for SR, RR, BYE, PLI,
+FIR, NACK, REMB and TWCC (not SDES, whose reader is a grammar; padded packets reach the per-type parsers stripped,
+`rtcp_padding_stripped`).
 -/
 import RtcModel.C15Rtcp
 import RtcModel.C15Rtp
@@ -54,6 +57,13 @@ def framed (bs : Bytes) (pt : Nat) : Prop :=
   (hdr bs).version = 2 ∧ (hdr bs).padding = false ∧ (hdr bs).pt = pt ∧ bs.length = 4 * ((hdr bs).lengthWords + 1)
 
 instance (bs : Bytes) (pt : Nat) : Decidable (framed bs pt) := by unfold framed; infer_instance
+
+/-- RFC 3550 §6.4.1 padding put on an RTCP packet with header fields `fmt`, `pt` and (unpadded) body `body`:
+P bit set, filler octets `z` (any value), and a last octet that counts the padding, itself included; the length
+field covers body and padding. -/
+def withPadding (fmt pt : Nat) (body z : Bytes) : Bytes :=
+  u8 (2 * 64 + 32 + fmt % 32) :: u8 pt ::
+    (be16n ((body.length + z.length + 1) / 4) ++ (body ++ z ++ [u8 (z.length + 1)]))
 
 /-! ### SR / RR -/
 
